@@ -1048,6 +1048,13 @@ static void gen_expr(Node *node) {
 
     int sz = node->lhs->ty->base->size;
     println("  xchg %s, (%%rdi)", reg_ax(sz));
+
+    // xchg replaced only the low byte or word of %rax; extend the
+    // previous value to the full register.
+    if (sz == 1)
+      println("  %s %%al, %%eax", node->lhs->ty->base->is_unsigned ? "movzbl" : "movsbl");
+    else if (sz == 2)
+      println("  %s %%ax, %%eax", node->lhs->ty->base->is_unsigned ? "movzwl" : "movswl");
     return;
   }
   }
